@@ -42,8 +42,9 @@ def run_case(run, drv, case_seed):
         os.makedirs(outdir)
         m = metas.make_meta(rng, box, via_cli=False)
         for d in (work, outdir, box):
-            with open(os.path.join(d, ".torrent"), "wb") as fd:
-                fd.write(b"precious bystander")
+            if rng.random() < 0.6:
+                with open(os.path.join(d, ".torrent"), "wb") as fd:
+                    fd.write(b"precious bystander")
         write_tree(os.path.join(box, "bystanders"), [("x/y.bin", b"yy"), ("z", b"")])
         damaged = rng.random() < 0.5
         if damaged:
@@ -66,7 +67,7 @@ def run_case(run, drv, case_seed):
         ver = rng.choice(["0", "1", "2", "3"])
         cmds.append(("ro", [rng.choice(["magnet", "m"]), meta] +
                      (["--meta-version", ver] if rng.random() < 0.7 else []), None))
-        outkind = rng.choice(["file", "dir", "default", "existing"])
+        outkind = rng.choice(["file", "dir", "default", "existing", "dir-noslash"])
         sub = rng.choice([["create"], ["new"], []])
         opts = ["--prog", rng.choice(["0", "1", "2"]), "--meta-version", str(m["version"])]
         if rng.random() < 0.3:
@@ -77,6 +78,8 @@ def run_case(run, drv, case_seed):
             out, expect = ["-o", m["path"]], m["path"]
         elif outkind == "dir":
             out, expect = ["-o", outdir + "/"], os.path.join(outdir, name + ".torrent")
+        elif outkind == "dir-noslash":      # an existing directory named without separator
+            out, expect = ["-o", outdir], os.path.join(outdir, name + ".torrent")
         else:
             out, expect = [], os.path.join(work, name + ".torrent")
         if os.path.exists(m["root"]):
@@ -124,9 +127,10 @@ def run_case(run, drv, case_seed):
                         run.fail("impl-vs-spec", c, {"why": "create changed something other than "
                                                             "exactly the output metafile",
                                                      "changed": diff[:6], "expected": want})
-                    probe_exists = outkind in ("dir", "default")
+                    probe_exists = os.path.exists(os.path.join(
+                        outdir if outkind == "dir" else work, ".torrent")) and outkind in ("dir", "default")
                     outtok = "none" if not out else hx(out[1].encode())
-                    if not raised:
+                    if not raised and outkind != "dir-noslash":
                         drv.ask(f"ops create {outtok} {hx(work.encode())} {hx(name.encode())} "
                                 f"{1 if probe_exists or outkind == 'existing' else 0}",
                                 ("create", c, [(t[0],) + tuple(os.path.join(box, p) for p in t[1:])
@@ -173,8 +177,41 @@ def run_case(run, drv, case_seed):
                 for p in (src, newp):
                     if os.path.exists(p):
                         os.remove(p)
+            rename_torrent_payload(run, box, outdir, case)
         finally:
             os.chdir(old_cwd)
+
+
+def rename_torrent_payload(run, box, outdir, case):
+    """The payload of the torrent is itself a file named *.torrent lying next to the metafile:
+    rename must not replace it."""
+    payload = os.path.join(outdir, "inner.torrent")
+    with open(payload, "wb") as fd:
+        fd.write(b"d4:infod4:name1:xee" * 50)
+    meta = os.path.join(outdir, "zz-meta.torrent")
+    impl.create("v1", payload, meta, piece_length=16384)
+    before = snapshot(box)
+    raised = None
+    with effects.traced(fence=[box]) as tr:
+        try:
+            impl.cli(["rename", meta])
+        except BaseException as exc:  # noqa
+            raised = type(exc).__name__
+    after = snapshot(box)
+    rel = os.path.relpath(payload, box)
+    if after.get(rel) != before.get(rel):
+        run.fail("impl-vs-spec", dict(case, rename="payload named *.torrent"),
+                 {"why": "rename replaced an existing file", "raised": raised})
+    moved = [k for k in after if k not in before]
+    gone = [k for k in before if k not in after]
+    if not raised and not (len(moved) == 1 and len(gone) == 1 and after[moved[0]] == before[gone[0]]):
+        run.fail("impl-vs-spec", dict(case, rename="payload named *.torrent"),
+                 {"why": "rename did not move exactly the metafile", "new": moved, "gone": gone})
+    run.case(["rename", "torrent-payload"], True, classes=["rename"])
+    for p in list(moved) + [os.path.relpath(meta, box), rel]:
+        full = os.path.join(box, p)
+        if os.path.isfile(full):
+            os.remove(full)
 
 
 def run(tier, seed, replay=None):
